@@ -33,6 +33,25 @@ type G struct {
 	Finished bool
 	Panic    interface{}
 	Tag      interface{} // harness data
+	fmu      sync.Mutex
+	doneCh   chan struct{}
+}
+
+// Wait blocks until the goroutine has returned (free mode); false on time-out.
+func (g *G) Wait(d time.Duration) bool {
+	select {
+	case <-g.doneCh:
+		return true
+	case <-time.After(d):
+		return false
+	}
+}
+
+// Result: has the goroutine returned, and with which panic value (safe from any goroutine).
+func (g *G) Result() (finished bool, panicValue interface{}) {
+	g.fmu.Lock()
+	defer g.fmu.Unlock()
+	return g.Finished, g.Panic
 }
 
 type Timer struct {
@@ -111,7 +130,7 @@ func (c *Ctl) rnd() uint64 {
 // ---- goroutines ----
 
 func (c *Ctl) start(name string, fn func(), parent *G) *G {
-	g := &G{Name: name, ctl: c, wake: make(chan struct{}, 1)}
+	g := &G{Name: name, ctl: c, wake: make(chan struct{}, 1), doneCh: make(chan struct{})}
 	c.mu.Lock()
 	g.ID = len(c.Gs)
 	c.Gs = append(c.Gs, g)
@@ -128,9 +147,12 @@ func (c *Ctl) start(name string, fn func(), parent *G) *G {
 		defer func() {
 			r := recover()
 			byGoid.Delete(id)
+			g.fmu.Lock()
 			g.Panic = r
 			g.Finished = true
 			g.Label = ""
+			g.fmu.Unlock()
+			close(g.doneCh)
 			if c.Controlled {
 				c.report <- g
 			}
